@@ -73,35 +73,29 @@ def ob_fault_history(ex, kinds, U=2, HU=2, faults=1):
         st.faults_left = faults
         sw = S.quiet_world(ex, st, U, HU)
         w = sw.iw
-        progs, infos, hashes = [], [], {}
-        for i, kd in enumerate(kinds):
-            pr = S.PROGS[kd](ex, sw, st, i)
-            name, fn, args, info = pr[:4]
-            if len(pr) > 4:
-                st = pr[4]    # the program's set-up ran real code (faults are not injected there)
-            progs.append((fn, args))
-            infos.append(info)
-            if kd == "put":
-                hashes[i] = info["hash"]
-        st.meta["thread_hashes"] = hashes
-        puts = [inf for inf in infos if inf["kind"] == "put"]
-        for a in range(len(puts)):
-            for b in range(a + 1, len(puts)):
-                st.pc.append(z3.Implies(puts[a]["hash"] == puts[b]["hash"], puts[a]["size"] == puts[b]["size"]))
         ex.models.reg("BlobHash::from_bytes", S.digest_hash_hook(ex))
         pre = w.snapshot_pre()
-        states = [st]
+        states, infos = [], []
         try:
-            for i, (fn, args) in enumerate(progs):
-                nxt = []
-                for s in states:
-                    s.status = "running"
-                    ex.start(s, fn, [a.clone() for a in args])
-                    for f in ex.run(s):
-                        f.meta.setdefault("results", [])
-                        f.meta["results"] = f.meta["results"] + [f.retval]
-                        nxt.append(f)
-                states = nxt
+            for tprogs, infos, st1 in S.build_programs(ex, sw, st, kinds):
+                progs = [(fn, args) for (_n, fn, args) in tprogs]
+                st1.meta["thread_hashes"] = {i: inf["hash"] for i, inf in enumerate(infos) if inf["kind"] == "put"}
+                puts = [inf for inf in infos if inf["kind"] == "put"]
+                for a in range(len(puts)):
+                    for b in range(a + 1, len(puts)):
+                        st1.pc.append(z3.Implies(puts[a]["hash"] == puts[b]["hash"], puts[a]["size"] == puts[b]["size"]))
+                cur = [st1]
+                for i, (fn, args) in enumerate(progs):
+                    nxt = []
+                    for s in cur:
+                        s.status = "running"
+                        ex.start(s, fn, [a.clone() for a in args])
+                        for f in ex.run(s):
+                            f.meta.setdefault("results", [])
+                            f.meta["results"] = f.meta["results"] + [f.retval]
+                            nxt.append(f)
+                    cur = nxt
+                states += cur
         finally:
             sw.io.disk = None
         name = f"history {' ; '.join(kinds)} with <= {faults} failed I/O call, then reopen: no dangling key live or recovered; untouched keys agree (U={U}, HU={HU})"
